@@ -81,6 +81,10 @@ pub struct Interpreter<TStdlib: Stdlib, TStdIn: Input, TStdOut: Printer, TLpt1: 
     data_segment: DataSegment,
 
     def_seg: Option<usize>,
+
+    /// Verification hook: step observer
+    #[cfg(feature = "verif")]
+    verif_observer: Option<crate::interpreter::verif::VmObserver>,
 }
 
 impl<TStdlib: Stdlib, TStdIn: Input, TStdOut: Printer, TLpt1: Printer> InterpreterTrait
@@ -193,6 +197,25 @@ impl<TStdlib: Stdlib, TStdIn: Input, TStdOut: Printer, TLpt1: Printer> Interpret
         while i < instructions.len() && !ctx.halt {
             let instruction = &instructions[i].element;
             let pos = instructions[i].pos();
+            #[cfg(feature = "verif")]
+            if self.verif_observer.is_some() {
+                use crate::interpreter::verif::{VmControl, VmEvent, VmHandler};
+                let event = VmEvent::Step {
+                    pc: i,
+                    instruction,
+                    pos,
+                    is_statement_start: ctx.nearest_statement_finder.verif_is_statement(i),
+                    handler: match ctx.error_handler {
+                        ErrorHandler::None => VmHandler::None,
+                        ErrorHandler::Next => VmHandler::Next,
+                        ErrorHandler::Address(a) => VmHandler::Address(a),
+                    },
+                    depths: self.verif_depths(),
+                };
+                if (self.verif_observer.as_mut().unwrap())(&event) == VmControl::Stop {
+                    return Ok(());
+                }
+            }
             match self.interpret_one(i, instruction, pos, &mut ctx) {
                 Ok(_) => match ctx.opt_next_index.take() {
                     Some(next_index) => {
@@ -203,6 +226,25 @@ impl<TStdlib: Stdlib, TStdIn: Input, TStdOut: Printer, TLpt1: Printer> Interpret
                     }
                 },
                 Err(e) => {
+                    #[cfg(feature = "verif")]
+                    if self.verif_observer.is_some() {
+                        use crate::interpreter::verif::{VmControl, VmDispatch, VmEvent};
+                        let event = VmEvent::Error {
+                            pc: i,
+                            error: &e,
+                            dispatch: match ctx.error_handler {
+                                ErrorHandler::Address(a) => VmDispatch::Handler(a),
+                                ErrorHandler::Next => {
+                                    VmDispatch::Next(ctx.nearest_statement_finder.find_next(i))
+                                }
+                                ErrorHandler::None => VmDispatch::Unhandled,
+                            },
+                            depths: self.verif_depths(),
+                        };
+                        if (self.verif_observer.as_mut().unwrap())(&event) == VmControl::Stop {
+                            return Ok(());
+                        }
+                    }
                     self.last_error_code = Some(e.err().get_code());
                     match ctx.error_handler {
                         ErrorHandler::Address(handler_address) => {
@@ -274,6 +316,33 @@ impl<TStdlib: Stdlib, TStdIn: Input, TStdOut: Printer, TLpt1: Printer>
             print_state: PrintState::new(),
             data_segment: DataSegment::default(),
             def_seg: None,
+            #[cfg(feature = "verif")]
+            verif_observer: None,
+        }
+    }
+
+    /// Verification hook: installs the step observer.
+    #[cfg(feature = "verif")]
+    pub fn verif_set_observer(&mut self, observer: Option<crate::interpreter::verif::VmObserver>) {
+        self.verif_observer = observer;
+    }
+
+    #[cfg(feature = "verif")]
+    fn verif_depths(&self) -> crate::interpreter::verif::VmDepths {
+        let (context_states, memory_blocks) = self.context.verif_depths();
+        crate::interpreter::verif::VmDepths {
+            context_states,
+            memory_blocks,
+            value_stack: self.value_stack.len(),
+            register_stack: self.register_stack.len(),
+            var_path_stack: self.var_path_stack.len(),
+            by_ref_stack: self.by_ref_stack.len(),
+            return_address_stack: self.return_address_stack.len(),
+            go_sub_address_stack: self.go_sub_address_stack.len(),
+            stacktrace: self.stacktrace.len(),
+            has_function_result: self.function_result.is_some(),
+            last_error_code: self.last_error_code,
+            has_last_error_address: self.last_error_address.is_some(),
         }
     }
 
@@ -665,6 +734,11 @@ impl NearestStatementFinder {
         Self {
             statement_addresses,
         }
+    }
+
+    #[cfg(feature = "verif")]
+    pub fn verif_is_statement(&self, address: usize) -> bool {
+        self.statement_addresses.binary_search(&address).is_ok()
     }
 
     pub fn find_current(&self, address: usize) -> usize {
